@@ -92,16 +92,27 @@ def show_value(v):
     return "other:" + repr(v)
 
 
-class Session:
-    """One real Client over one Wire."""
+_SESSIONS = [0]
 
-    def __init__(self):
-        self.client = managesieve.Client("srv.example")
+
+class Session:
+    """One real Client over one Wire.  Every third session is created with the public `debug=True` flag (trace printed to a
+    discarded stdout): tracing must not change what the client does."""
+
+    def __init__(self, debug=None):
+        _SESSIONS[0] += 1
+        self.debug = (_SESSIONS[0] % 3 == 0) if debug is None else debug
+        self.client = managesieve.Client("srv.example", debug=self.debug)
         self.wire = Wire()
 
     def call(self, fn, timeout=3):
         nw = len(self.wire.writes)
-        st, val = with_watchdog(fn, timeout)
+        if self.debug:
+            import contextlib, io
+            with contextlib.redirect_stdout(io.StringIO()):
+                st, val = with_watchdog(fn, timeout)
+        else:
+            st, val = with_watchdog(fn, timeout)
         if st == "hang":
             res = "hang"
         elif st == "exc":
